@@ -229,7 +229,7 @@ pub fn phases(cfg: &Cfg) -> Vec<Box<dyn Phase>> {
             corpus: corpus_exhaustive(),
         }),
         Box::new(Random {
-            n: cfg.n(60_000, 2_500_000),
+            n: cfg.n(120_000, 2_500_000),
         }),
     ]
 }
